@@ -174,6 +174,23 @@ def _limit_reached(cj, itcount):
     return cj.get("limit") is not None and itcount is not None and itcount >= cj["limit"]
 
 
+ROUNDING_LEVEL = 1e-12
+
+
+def _past_rounding_level(A, b, positions):
+    """Index of the first position whose true residual is at rounding level (<= 1e-12*(|b|+|A||x|)) although the run
+    went on afterwards, else None.  What CG does from there on is decided by rounding errors alone (in exact arithmetic
+    it would have left through `gamma == 0`); IEEE rounding is outside the model, so nothing is claimed about the rest
+    of such a run (design.d/C14.md, "Partial")."""
+    if len(positions) < 2:
+        return None
+    sc = max([_scale(A, b, x) for x in positions if np.all(np.isfinite(x))] + [1e-300])
+    for k, x in enumerate(positions[:-1]):
+        if np.all(np.isfinite(x)) and float(np.linalg.norm(_res(A, b, x))) <= ROUNDING_LEVEL * sc:
+            return k
+    return None
+
+
 def _oracle_energies(A, b, energies, site):
     """QuadraticEnergy objects carry value and gradient consistent with their position"""
     sc = max([_scale(A, b, x) for x, _, _ in energies] + [1e-300])   # drift is relative to the largest state seen
@@ -268,10 +285,12 @@ def oracle_ie(case):
         return None
     inv = {1: 4, 2: 8, 4: 1, 8: 2}[mode]
     Ainv = _ie_matrix(case, inv)           # the system that has to be solved:  Ainv y = x
-    if out["recs"] and out["recs"][-1]["status"] == 2 or out["warned"] and not _limit_reached(case["ctrl"], out["itcount"]) \
-            and out["recs"] and out["recs"][-1]["status"] != 0:
-        return ("InversionEnabler: CG gave up on a Hermitian positive definite system", {"site": "ie", "kind": "error-on-hpd"})
     en = [(r["pos"], r["grad"], r["value"]) for r in out["recs"]]
+    k = _past_rounding_level(Ainv, x, [e[0] for e in en] + ([] if (en and np.array_equal(en[-1][0], y)) else [y]))
+    if k is not None:
+        return _oracle_energies(Ainv, x, en[:k + 1], "ie")
+    if out["warned"]:      # "Error detected during operator inversion": CG did not return CONVERGED
+        return ("InversionEnabler: CG gave up on a Hermitian positive definite system", {"site": "ie", "kind": "error-on-hpd"})
     r = _oracle_energies(Ainv, x, en, "ie")
     if r:
         return r
@@ -345,6 +364,12 @@ def compare_cg(ctx, case, out, mod):
     mits = mod["iters"]
     sc = _scale(out["A"], out["b"], out["pos"]) if not exact else 0.0
     gn0 = out["recs"][0]["gn"] if out["recs"] else 0.0
+    # below this relative residual the trajectory is compared no further: rounding errors ~ 1e-16*cond / (|r|/|r0|)
+    try:
+        kappa = float(np.linalg.cond(out["A"])) * (1.0 if out["P"] is None else float(np.linalg.cond(out["P"])))
+    except Exception:
+        kappa = 1e16
+    floor = min(1e-2, max(1e-7, 1e-9 * kappa)) if np.isfinite(kappa) else 1e-2
     stopped = False
     # start verdict
     if out["recs"] and _margin(cj, 0, out["recs"]) < MARGIN and not exact:
@@ -358,7 +383,7 @@ def compare_cg(ctx, case, out, mod):
         a, m = its[k], mits[k]
         mg = _approx(m["gamma"])
         mgn = _approx(m["gnsq"])
-        if not exact and (mg == 0 or mgn <= (1e-7 * gn0) ** 2):
+        if not exact and (mg == 0 or mgn <= (floor * gn0) ** 2):
             # exact termination / residual at rounding level: `gamma == 0` and everything after is rounding noise
             stopped = True
             ctx.stat("cg:stopped:exact-termination" if mg == 0 else "cg:stopped:noise-floor")
@@ -450,6 +475,9 @@ def _one_cg(ctx, c, mod):
                          "C14 cg trajectory: " + why)
         else:
             ctx.traces_validated += 1
+        if "error" not in out and _past_rounding_level(
+                out["A"], out["b"], [q["pos"] for q in out["recs"]] + [out["pos"]]) is not None:
+            ctx.stat("cg:past-rounding-level(oracle-silent-after)")
         r = oracle_cg_from(c, out)
         if r:
             ctx.counterexample(c, *r)
@@ -462,7 +490,13 @@ def oracle_cg_from(case, out):
                 f" system with controller {case['ctrl']['type']}",
                 {"site": "cg", "kind": "raised:" + out["error"], "ctrl": case["ctrl"]["type"]})
     A, b = out["A"], out["b"]
-    en = [(r["pos"], r["grad"], r["value"]) for r in out["recs"]] + [(out["pos"], out["grad"], out["value"])]
+    en = [(r["pos"], r["grad"], r["value"]) for r in out["recs"]]
+    if not out["recs"] or not np.array_equal(out["recs"][-1]["pos"], out["pos"]):
+        en.append((out["pos"], out["grad"], out["value"]))
+    k = _past_rounding_level(A, b, [e[0] for e in en])
+    if k is not None:
+        # the system was solved to rounding level at energy #k and the controller wanted more iterations
+        return _oracle_energies(A, b, en[:k + 1], "cg")
     r = _oracle_energies(A, b, en, "cg")
     if r:
         return r
@@ -553,6 +587,11 @@ def compare_ie(ctx, case, out, mod):
     if mg_zero:
         ctx.skipped_near_threshold += 1
         ctx.stat("ie:exact-termination")
+        inv = {1: 4, 2: 8, 4: 1, 8: 2}[case["mode"]]
+        if _past_rounding_level(_ie_matrix(case, inv), impl.cvec(case, "x"),
+                                [r["pos"] for r in out["recs"]] + [out["y"]]) is not None:
+            ctx.stat("ie:past-rounding-level")
+            return None       # the real run went on iterating on rounding noise: nothing to compare
         if float(np.linalg.norm(out["y"] - my)) > TOL * (float(np.linalg.norm(my)) + 1e-300):
             return f"solution differs by {float(np.linalg.norm(out['y'] - my)):.3e}"
         return None
